@@ -125,8 +125,8 @@ class Thermal(_Simu):
             coef = self.rho * thermalModel.c
             C_e = Operators.Bilinear.UV(groupElem, coef=coef, dof_n=1)
 
-            # rescale
-            if self.dim == 2:
+            # rescale (the thermal model has no dimension of its own: the mesh decides)
+            if self.mesh.dim == 2:
                 thickness = thermalModel.thickness
                 K_e *= thickness
                 C_e *= thickness
